@@ -69,6 +69,8 @@ SIGMA_RARE = [
     '  @r1 \r @r2\n',
     '      | a\r | b |\n',
     '  @t1 #@t2 x\n',
+    '# Language: fr\n',
+    '    Given a\x00b\n',
 ]
 SIGMA_CORE = [
     '\n',
@@ -242,10 +244,16 @@ def edit_bases(max_chars):
     return _EDIT_BASES[max_chars]
 
 
+# blanks the specification, str.isspace(), str.strip() and the regex class \\s do not all agree on, a combining mark, a letter
+# whose case mapping changes its length, an astral character: inserted at every position of the short bases
+UNICODE_EDIT_CHARS = ['\x00', '\u00a0', '\u0085', '\u2003', '\u2028', '\u3000', '\ufeff', '\u200b', '\u180e', '\u001c', '\u0301', '\u0130', '\U0001F600']
+
+
 def single_edits(text):
     seen = {text}
+    chars = EDIT_CHARS + (UNICODE_EDIT_CHARS if len(text) <= 130 else [])
     for i in range(len(text) + 1):
-        for c in EDIT_CHARS:
+        for c in chars:
             t = text[:i] + c + text[i:]
             if t not in seen:
                 seen.add(t)
@@ -277,6 +285,32 @@ def job_edits(module, max_chars, bi):
     return acc
 
 
+LINE_SHIFTS = (8, 9, 10, 98, 99, 100, 998, 999, 1000)
+
+
+@worker
+def job_line_numbers(module, bi):
+    """Base and corpus documents pushed down by n comment / blank lines (n around 10, 100, 1000: every line number gains a digit),
+    and the same with an unexpected line appended."""
+    import importlib
+    mod = importlib.import_module(module)
+    acc = Acc()
+    base = edit_bases(700)[bi]
+    t = base
+    lang = base.lstrip().startswith('#') and 'language' in base.split('\n', 1)[0]
+    for n in LINE_SHIFTS:
+        for filler in ('\n', '# c\n'):
+            for tail in ('', '  @dangling\n', 'zzz\n'):
+                if lang:
+                    first, rest = base.split('\n', 1)
+                    t = first + '\n' + filler * n + rest + tail
+                else:
+                    t = filler * n + base + tail
+                mod.check_text(t, acc)
+    acc.sample({'text': t[-200:]})
+    return acc
+
+
 def edit_jobs(mod, max_chars):
     return [job_edits.job(mod, max_chars, bi) for bi in range(len(edit_bases(max_chars)))]
 
@@ -288,5 +322,6 @@ def run_levels(ctx, mod, k_full, k_core):
     ctx.level('rare-line alphabet K<=2', level_jobs(mod, 'rare', 2))
     mc = ctx.pick(250, 1500)
     ctx.level('single edits of corpus and base documents <= %d characters' % mc, edit_jobs(mod, mc))
+    ctx.level('documents pushed down by 8..1000 lines', [job_line_numbers.job(mod, bi) for bi in range(len(edit_bases(700)))])
     for k in range(k_full + 1, k_core + 1):
         ctx.level('core-alphabet K=%d' % k, level_jobs(mod, 'core', k))
